@@ -1,5 +1,6 @@
-(* C12 — Failures propagate; unselected operands are not evaluated (expression level). Theorems only. *)
-From Tpl Require Import Exp.Eval Proofs.EvalStrict.
+(* C12 — Failures propagate; unselected operands are not evaluated (expression level), and the failing writer
+   (render level). Theorems only. *)
+From Tpl Require Import Exp.Eval Proofs.EvalStrict Html.Exec Proofs.WriterPrefix.
 Open Scope N_scope.
 
 Section C12.
@@ -63,11 +64,56 @@ Theorem err_call_arg : forall f pre x post ell cm id bound vs lg lg1 lgk c lg',
 Proof. exact (EvalStrict.err_call_arg methods call_fn sc). Qed.
 End C12.
 
+
+(* ---- the failing writer (render level). The writer given to Execute is modelled by a budget: [Some k] = the next k
+   Write calls succeed and the (k+1)-th fails. The same render with budget k and with an unlimited writer: either the
+   budget is never exhausted and everything is equal, or the budgeted render returns the writer's error, what it wrote is
+   a prefix of the unlimited output, nothing is written afterwards (budget stays 0) and no expression is evaluated after
+   the failure (its call log is the part of the unlimited run's log recorded up to that point). *)
+Theorem writer_failure_prefix : forall is_space to_lower is_letter is_udigit methods call_fn mgr fuel tp data t st k o r t1 s1 ok rk tk sk,
+  execute is_space to_lower is_letter is_udigit methods call_fn mgr fuel tp data t (with_budget st None) = (o, r, t1, s1) ->
+  execute is_space to_lower is_letter is_udigit methods call_fn mgr fuel tp data t (with_budget st (Some k)) = (ok, rk, tk, sk) ->
+  (ok = o /\ rk = r /\ tk = t1 /\ r_log sk = r_log s1 /\ r <> RErr RWriter /\
+   exists k', r_budget sk = Some k' /\ (k' <= k)%nat)
+  \/
+  (rk = RErr RWriter /\ r_budget sk = Some O /\
+   exists rest, o = ok ++ rest /\ exists later, r_log s1 = later ++ r_log sk).
+Proof. exact WriterPrefix.execute_writer_prefix_strong. Qed.
+(* the same at every node, mask and nesting position rendered to the caller's writer *)
+Theorem writer_failure_prefix_node : forall is_space to_lower is_letter is_udigit methods call_fn mgr fuel mask ctx n sc t st k o r t1 s1 ok rk tk sk,
+  exec_node is_space to_lower is_letter is_udigit methods call_fn mgr fuel mask ctx n sc true t (with_budget st None) = (o, r, t1, s1) ->
+  exec_node is_space to_lower is_letter is_udigit methods call_fn mgr fuel mask ctx n sc true t (with_budget st (Some k)) = (ok, rk, tk, sk) ->
+  (ok = o /\ rk = r /\ tk = t1 /\ r_log sk = r_log s1)
+  \/
+  (rk = RErr RWriter /\ exists rest, o = ok ++ rest /\ exists later, r_log s1 = later ++ r_log sk).
+Proof. exact WriterPrefix.writer_prefix. Qed.
+(* a writer error can only come from the writer: with an unlimited writer no render reports one *)
+Theorem writer_error_only_from_writer : forall is_space to_lower is_letter is_udigit methods call_fn mgr fuel tp data t st o r t1 s1,
+  r_budget st = None ->
+  execute is_space to_lower is_letter is_udigit methods call_fn mgr fuel tp data t st = (o, r, t1, s1) ->
+  r <> RErr RWriter /\ r_budget s1 = None.
+Proof. exact WriterPrefix.execute_never_fails_unlimited. Qed.
+(* renders into buffers (if/range re-executions, inserted fragments) neither consult nor consume the writer *)
+Theorem nested_render_ignores_writer : forall is_space to_lower is_letter is_udigit methods call_fn mgr fuel mask ctx n sc t st b b' o r t1 s1 o' r' t1' s1',
+  exec_node is_space to_lower is_letter is_udigit methods call_fn mgr fuel mask ctx n sc false t (with_budget st b) = (o, r, t1, s1) ->
+  exec_node is_space to_lower is_letter is_udigit methods call_fn mgr fuel mask ctx n sc false t (with_budget st b') = (o', r', t1', s1') ->
+  o' = o /\ r' = r /\ t1' = t1 /\ r_log s1' = r_log s1 /\ r_budget s1 = b /\ r_budget s1' = b'.
+Proof. exact WriterPrefix.nested_ignores_budget. Qed.
+(* the render's call log only grows *)
+Theorem render_log_extends : forall is_space to_lower is_letter is_udigit methods call_fn mgr fuel tp data t st o r t1 s1,
+  execute is_space to_lower is_letter is_udigit methods call_fn mgr fuel tp data t st = (o, r, t1, s1) -> exists later, r_log s1 = later ++ r_log st.
+Proof. exact WriterPrefix.execute_log_extends. Qed.
+
 Print Assumptions eval_log_extends.
 Print Assumptions and_short_circuit.
 Print Assumptions cond_selects.
 Print Assumptions err_bin_right.
 Print Assumptions err_call_arg.
+Print Assumptions writer_failure_prefix.
+Print Assumptions writer_failure_prefix_node.
+Print Assumptions writer_error_only_from_writer.
+Print Assumptions nested_render_ignores_writer.
+Print Assumptions render_log_extends.
 
 (* Non-vacuity: a failing user function in the second operand, after a recorded call in the first *)
 Example strict_example :
